@@ -194,5 +194,58 @@ mod verif_capi_lib_oxide {
         }
     }
 
+    // ------------------------------------------------------------------
+    // deflate side at the Rust layer of the shim (the extern "C" wrappers around it crash CBMC, status 139):
+    // mz_deflate_init2_oxide parameter screening, mz_deflate_oxide exact accounting, mz_deflate_reset_oxide gives the
+    // stream the field values a freshly initialised one has.
+    // ------------------------------------------------------------------
+    fn model_fill_capi<T: Clone>(s: &mut [T], v: T) { if !s.is_empty() { s[0] = v; } }
+    #[kani::proof]
+    #[kani::unwind(10)]
+    #[kani::stub(deflate, model_deflate)]
+    #[kani::stub(<[u16]>::fill, model_fill_capi)]
+    fn k_capi_deflate_oxide_layer() {
+        let inb = [0u8; CAP];
+        let mut outb = [0u8; CAP];
+        let avail_in: usize = kani::any();
+        let avail_out: usize = kani::any();
+        kani::assume(avail_in <= CAP && avail_out <= CAP);
+        let mut so: StreamOxide<Compressor> = StreamOxide { next_in: None, total_in: kani::any(), next_out: None, total_out: kani::any(), state: None, adler: kani::any(), state_type: std::marker::PhantomData };
+        let (level, method, wb, mem_level, strategy): (i32, i32, i32, i32, i32) = (kani::any(), kani::any(), kani::any(), kani::any(), kani::any());
+        let rc = mz_deflate_init2_oxide(&mut so, level, method, wb, mem_level, strategy);
+        let bad = method != 8 || mem_level < 1 || mem_level > 9 || (wb != 15 && wb != -15);
+        if bad {
+            assert!(matches!(rc, Err(MZError::Param)) && so.state.is_none(), "OBL:capi.deflate_init_rejects_bad_method_mem_level_window_bits [C17 C11]");
+            return;
+        }
+        assert!(matches!(rc, Ok(MZStatus::Ok)) && so.state.is_some() && so.total_in == 0 && so.total_out == 0 && so.adler == 1, "OBL:capi.deflate_init_ok_fresh_counters_and_checksum [C17 C16]");
+        let want_flags = deflate_flags::TDEFL_COMPUTE_ADLER32 | create_comp_flags_from_zip_params(level, wb, strategy);
+        assert!(so.state().map(|c| c.flags()) == Some(want_flags as i32), "OBL:capi.deflate_init_flags_are_the_rust_flags_plus_running_adler [C17 C16]");
+        // a call
+        so.next_in = Some(&inb[..avail_in]);
+        so.next_out = Some(&mut outb[..avail_out]);
+        let (ti0, to0) = (so.total_in, so.total_out);
+        let flush: i32 = kani::any();
+        let rc = mz_deflate_oxide(&mut so, flush);
+        if !(flush >= 0 && flush <= 4) {
+            assert!(matches!(rc, Err(MZError::Param)) && CALLS.load(Relaxed) == 0 && so.total_in == ti0 && so.total_out == to0, "OBL:capi.deflate_out_of_range_flush_is_param_error_nothing_moves [C17]");
+        } else {
+            let (c, w) = (CONSUMED.load(Relaxed), WRITTEN.load(Relaxed));
+            assert!(CALLS.load(Relaxed) == 1 && IN_LEN.load(Relaxed) == avail_in && OUT_LEN.load(Relaxed) == avail_out, "OBL:capi.deflate_rust_call_sees_exactly_the_declared_ranges [C17]");
+            assert!(so.next_in.map(|s| s.len()) == Some(avail_in - c) && so.next_out.as_ref().map(|s| s.len()) == Some(avail_out - w) && so.total_in == ti0 + c as c_ulong && so.total_out == to0 + w as c_ulong,
+                "OBL:capi.deflate_exact_accounting_also_on_error_returns [C17]");
+            assert!(code_of(rc) == STATUS.load(Relaxed), "OBL:capi.deflate_return_code_is_the_rust_status [C17]");
+            assert!(so.adler == 1, "OBL:capi.deflate_adler_field_is_the_compressors_running_checksum [C16 C17]");
+        }
+        // reset after any history: the stream looks like a freshly initialised one
+        so.total_in = kani::any(); so.total_out = kani::any(); so.adler = kani::any();
+        let rr = mz_deflate_reset_oxide(&mut so);
+        assert!(matches!(rr, Ok(MZStatus::Ok)) && so.state.is_some(), "OBL:capi.deflate_reset_ok_keeps_the_compressor [C18 C17]");
+        assert!(so.total_in == 0 && so.total_out == 0 && so.next_in.is_none() && so.next_out.is_none(), "OBL:capi.deflate_reset_clears_counters_and_buffers [C18 C17]");
+        assert!(so.state().map(|c| c.flags()) == Some(want_flags as i32), "OBL:capi.deflate_reset_keeps_the_settings [C18 C11]");
+        assert!(so.adler == 1, "OBL:capi.deflate_reset_checksum_field_as_after_init [C18 C16]");
+        kani::cover!(flush == 4 && CONSUMED.load(Relaxed) > 0, "COV:capi.deflate_progress");
+    }
+
     //@PLAYBACK@
 }
